@@ -357,6 +357,10 @@ func (ip *FileIP) SetAuditInfo(ai *AuditInfo) {
 // WriteAuditLogToFile writes the audit log to its designated file
 func (ip *FileIP) WriteAuditLogToFile() {
 	auditInfo := ip.AuditInfo()
+	// Multiple processes can have received the same IP, and re-write its audit
+	// file (e.g. several MapToTags components), so only one at a time
+	ip.lock.Lock()
+	defer ip.lock.Unlock()
 	auditInfoJSON, jsonErr := json.MarshalIndent(auditInfo, "", "    ")
 	CheckWithMsg(jsonErr, "Could not marshall JSON")
 	ip.createDirs("")
